@@ -51,6 +51,7 @@ type vfFakeProc struct {
 	done     chan struct{}
 	doneOnce sync.Once
 	hooks    []func(error)
+	exitErr  error // what the process ended with (nil: it exited with status 0)
 }
 
 func (p *vfFakeProc) result() error {
@@ -78,7 +79,7 @@ func (p *vfFakeProc) die() {
 		hooks := append([]func(error){}, p.hooks...)
 		p.mu.Unlock()
 		for _, h := range hooks {
-			h(nil)
+			h(p.exitErr)
 		}
 	})
 }
